@@ -137,6 +137,7 @@ type T struct {
 
 var a T
 var arr []int
+var brr []int
 var p *int
 var x int
 
@@ -336,6 +337,9 @@ type site struct {
 }
 
 type groupSpec struct {
+	fn       string   // prefix of the matched functions' names: p<group> for generated groups, pb<k> for the bundle's
+	bundle   bool     // the rule comes from the imported bundle (harness/fake/c03bundle), not from a generated rules file
+	wgroup   string   // the group name RuleInfo must carry
 	names    []string // capture names in pattern order
 	variadic bool     // last capture is $*name
 	alts     int
@@ -358,6 +362,7 @@ type engineObs struct {
 	AtEOF    bool      `json:"at_eof"`
 	SrcN     int       `json:"srcn"`
 	AltLines []int     `json:"alt_lines"`
+	Version  string    `json:"version"` // which version of the target file (same path) this run analysed
 	Missing  bool      `json:"missing"` // the site produced no report
 	Extra    int       `json:"extra"`   // further reports at the same site
 	// observed
@@ -375,6 +380,7 @@ type engineObs struct {
 	WFunc     string   `json:"w_func"`
 	WFuncs    []string `json:"w_funcs,omitempty"` // comment rules: the values ReportData.Func may have
 	WFile     string   `json:"w_file"`
+	WGroup    string   `json:"w_group"` // the group name RuleInfo must carry
 	// expected (specification)
 	WMsg     []byte `json:"w_msg"`
 	WPos     int    `json:"w_pos"`
@@ -454,8 +460,29 @@ func engineLevel(enc *json.Encoder, tmp string, rng *rand.Rand, ngroups int) {
 		if gi%8 == 2 {
 			g.suggest, g.at = "OWN", ""
 		}
+		g.fn, g.wgroup = fmt.Sprintf("p%d", gi), fmt.Sprintf("g%d", gi)
 		groups = append(groups, g)
 	}
+	// the rules of the bundle package (static file; its text is the source of the expected rule lines)
+	bundleSrc, err := os.ReadFile("fake/c03bundle/c03b_rules.go")
+	if err != nil {
+		fmt.Fprintln(os.Stderr, "bundle:", err)
+		os.Exit(3)
+	}
+	lineOf := func(needle string) int {
+		i := strings.Index(string(bundleSrc), needle)
+		if i < 0 {
+			fmt.Fprintln(os.Stderr, "bundle: pattern not found:", needle)
+			os.Exit(3)
+		}
+		return 1 + strings.Count(string(bundleSrc[:i]), "\n")
+	}
+	nGenerated := len(groups)
+	groups = append(groups,
+		groupSpec{fn: "pb0", bundle: true, wgroup: "bnd/bat", names: []string{"x", "xy"}, alts: 2, msg: "bundle at $xy of $$ ($x)", at: "xy", suggest: "$x",
+			altLines: []int{lineOf("`pb0_0("), lineOf("`pb0_1(")}},
+		groupSpec{fn: "pb1", bundle: true, wgroup: "bnd/bplain", names: []string{"v"}, alts: 1, msg: "bundle plain $v", suggest: "$$", altLines: []int{lineOf("`pb1_0(")}},
+		groupSpec{fn: "pb2", bundle: true, wgroup: "bnd/batonly", names: []string{"v", "vv"}, alts: 1, msg: "bundle at-only $vv", at: "v", altLines: []int{lineOf("`pb2_0(")}})
 	patText := func(gi, alt int) string {
 		g := groups[gi]
 		var ps []string
@@ -466,17 +493,33 @@ func engineLevel(enc *json.Encoder, tmp string, rng *rand.Rand, ngroups int) {
 				ps = append(ps, "$"+n)
 			}
 		}
-		return fmt.Sprintf("p%d_%d(%s)", gi, alt, strings.Join(ps, ", "))
+		return fmt.Sprintf("%s_%d(%s)", g.fn, alt, strings.Join(ps, ", "))
 	}
 	// ---- rules file (line numbers tracked by construction)
-	var rb strings.Builder
+	// the rules are spread over three rules files loaded one after the other: the rule sets are merged (and the syntax
+	// rules cloned) on the second and third Load
+	var rbs [3]strings.Builder
+	rfile := 0
 	line := 1
 	w := func(s string) {
-		rb.WriteString(s)
+		rbs[rfile].WriteString(s)
 		line += strings.Count(s, "\n")
 	}
+	cut1 := 1 + rng.Intn(nGenerated/2)
+	cut2 := cut1 + 1 + rng.Intn(nGenerated-cut1-1)
 	w("package gorules\n\nimport \"github.com/quasilyte/go-ruleguard/dsl\"\n\n")
-	for gi := range groups {
+	for gi := range groups[:nGenerated] {
+		if gi == cut1 {
+			// the second file also imports the rule bundle (its rules are loaded in front of this file's own)
+			rfile++
+			line = 1
+			w("package gorules\n\nimport (\n\t\"github.com/quasilyte/go-ruleguard/dsl\"\n\tc03b \"example.com/c03b\"\n)\n\nfunc init() {\n\tdsl.ImportRules(\"bnd\", c03b.Bundle)\n}\n\n")
+		}
+		if gi == cut2 {
+			rfile++
+			line = 1
+			w("package gorules\n\nimport \"github.com/quasilyte/go-ruleguard/dsl\"\n\n")
+		}
 		g := &groups[gi]
 		w(fmt.Sprintf("func g%d(m dsl.Matcher) {\n", gi))
 		w("\tm.Match(\n")
@@ -512,9 +555,9 @@ func engineLevel(enc *json.Encoder, tmp string, rng *rand.Rand, ngroups int) {
 	// ---- target file
 	var tb strings.Builder
 	tb.WriteString(targetPrelude)
-	for gi, g := range groups {
+	for _, g := range groups {
 		for alt := 0; alt < g.alts; alt++ {
-			fmt.Fprintf(&tb, "func p%d_%d(args ...interface{}) int { return 0 }\n", gi, alt)
+			fmt.Fprintf(&tb, "func %s_%d(args ...interface{}) int { return 0 }\n", g.fn, alt)
 		}
 	}
 	tb.WriteString("\n// alpha-1 here\n/* x beta-22 y */\n\n")
@@ -524,7 +567,7 @@ func engineLevel(enc *json.Encoder, tmp string, rng *rand.Rand, ngroups int) {
 		g := groups[gi]
 		tb.WriteString(prefix)
 		s := site{group: gi, alt: alt, from: tb.Len(), fn: curFn}
-		fmt.Fprintf(&tb, "p%d_%d(", gi, alt)
+		fmt.Fprintf(&tb, "%s_%d(", g.fn, alt)
 		nargs := len(g.names)
 		if g.variadic {
 			nargs = len(g.names) - 1 + rng.Intn(4)
@@ -575,7 +618,7 @@ func engineLevel(enc *json.Encoder, tmp string, rng *rand.Rand, ngroups int) {
 	}
 	// the last site ends exactly at EOF (no trailing newline); its last argument too, up to the closing parenthesis
 	last := 0
-	for gi, g := range groups {
+	for gi, g := range groups[:nGenerated] {
 		if !g.variadic && g.at == "" {
 			last = gi
 		}
@@ -585,7 +628,7 @@ func engineLevel(enc *json.Encoder, tmp string, rng *rand.Rand, ngroups int) {
 
 	// one FileSet for all files; the target is not its first file (its base is > 1)
 	fset := token.NewFileSet()
-	checkIn := func(name string, text []byte) *hutil.Target {
+	checkInSet := func(fset *token.FileSet, name string, text []byte) *hutil.Target {
 		path := filepath.Join(tmp, name)
 		if err := os.MkdirAll(filepath.Dir(path), 0o755); err != nil {
 			fmt.Fprintln(os.Stderr, "target:", err)
@@ -610,14 +653,42 @@ func engineLevel(enc *json.Encoder, tmp string, rng *rand.Rand, ngroups int) {
 		}
 		return &hutil.Target{Fset: fset, File: f, Info: info, Pkg: pkg, Src: text, Path: path}
 	}
-	origPrint, _ := printNoComments(src)
+	checkIn := func(name string, text []byte) *hutil.Target { return checkInSet(fset, name, text) }
 	// a different file with the same functions is run through the same engine and the same runner state before every run
 	// of the target: texts must come from the file at hand, never from bytes or offsets remembered from another file
 	other := []byte(strings.Replace(targetPrelude, "package target", "package target // zzzzzzzzzzzzzzzzzzzzzzzzzzzzzzzzzzzzzzzzzzzz", 1) +
 		string(src[len(targetPrelude):]))
 	other = []byte(strings.ReplaceAll(string(other), "1 +  2", "3 +   4"))
 	t2 := checkIn("c03other/target.go", other)
-	t := checkIn("c03/target.go", src)
+	// versions of the target AT THE SAME PATH, analysed one after the other through the same runner state: the original, one
+	// of the same length whose texts differ (every `arr` after the prelude is `brr`), one whose offsets are all shifted (a
+	// comment line in front), and the original again -- texts must come from the bytes the file has when it is analysed
+	type version struct {
+		t     *hutil.Target
+		src   []byte
+		shift int
+		print string
+		what  string
+	}
+	mkVersion := func(text []byte, shift int, what string) version {
+		pr, _ := printNoComments(text)
+		return version{t: checkIn("c03/target.go", text), src: text, shift: shift, print: pr, what: what}
+	}
+	swapped := []byte(targetPrelude + strings.ReplaceAll(string(src[len(targetPrelude):]), "arr", "brr"))
+	header := "// a later version of the same file: everything sits further down now\n"
+	versions := []version{mkVersion(swapped, 0, "2nd version of the file at the same path: same length, every arr is brr"),
+		mkVersion(append([]byte(header), src...), len(header), "3rd version of the file at the same path: a comment line in front, all offsets shifted"),
+		mkVersion(src, 0, "4th version of the file at the same path: the original bytes again")}
+	// ... and the same path once more, parsed into a FileSet of its own (the rules stay loaded with the first one)
+	own := token.NewFileSet()
+	own.AddFile("pad.go", -1, 777)
+	swappedShifted := append([]byte(header), swapped...)
+	ownPrint, _ := printNoComments(swappedShifted)
+	versions = append(versions, version{t: checkInSet(own, "c03/target.go", swappedShifted), src: swappedShifted, shift: len(header), print: ownPrint,
+		what: "5th version of the file at the same path, parsed into another FileSet: shifted and every arr is brr"})
+	first := mkVersion(src, 0, "original file")
+	versions = append([]version{first}, versions...)
+	t := first.t
 	// a third file whose LAST syntax-rule report sits inside a function and is followed by comment-rule reports
 	var tailArgs []string
 	for k := range groups[0].names {
@@ -626,10 +697,11 @@ func engineLevel(enc *json.Encoder, tmp string, rng *rand.Rand, ngroups int) {
 	tailSrc := "package target\n\nfunc p0_0(args ...interface{}) int { return 0 }\n\n// alpha-5 top\n\nfunc k() int {\n\treturn p0_0(" +
 		strings.Join(tailArgs, ", ") + ") // beta-6 inside k\n}\n"
 	t3 := checkIn("c03tail/target.go", []byte(tailSrc))
-	e, err := hutil.LoadEngine(fset, map[string]string{"rules.go": rb.String()}, []string{"rules.go"})
+	e, err := hutil.LoadEngine(fset, map[string]string{"rules0.go": rbs[0].String(), "rules1.go": rbs[1].String(), "rules2.go": rbs[2].String()},
+		[]string{"rules0.go", "rules1.go", "rules2.go"})
 	if err != nil {
 		fmt.Fprintln(os.Stderr, "load:", err)
-		fmt.Fprintln(os.Stderr, rb.String())
+		fmt.Fprintln(os.Stderr, rbs[0].String(), rbs[1].String(), rbs[2].String())
 		os.Exit(3)
 	}
 	type frep struct {
@@ -645,7 +717,7 @@ func engineLevel(enc *json.Encoder, tmp string, rng *rand.Rand, ngroups int) {
 			}
 		}()
 		ctx := &ruleguard.RunContext{
-			Pkg: t.Pkg, Types: t.Info, Sizes: types.SizesFor("gc", "amd64"), Fset: fset, TruncateLen: L, State: state,
+			Pkg: t.Pkg, Types: t.Info, Sizes: types.SizesFor("gc", "amd64"), Fset: t.Fset, TruncateLen: L, State: state,
 			Report: func(data *ruleguard.ReportData) {
 				r := frep{Report: hutil.Report{Message: data.Message, Line: data.RuleInfo.Line}}
 				if data.RuleInfo.Group != nil {
@@ -654,15 +726,15 @@ func engineLevel(enc *json.Encoder, tmp string, rng *rand.Rand, ngroups int) {
 				if data.Node == nil {
 					r.NilNode = true
 				} else {
-					p := fset.Position(data.Node.Pos())
+					p := t.Fset.Position(data.Node.Pos())
 					r.file = p.Filename
 					r.Pos = p.Offset
-					r.End = fset.Position(data.Node.End()).Offset
+					r.End = t.Fset.Position(data.Node.End()).Offset
 				}
 				if data.Suggestion != nil {
 					r.HasSugg = true
-					r.SuggFrom = fset.Position(data.Suggestion.From).Offset
-					r.SuggTo = fset.Position(data.Suggestion.To).Offset
+					r.SuggFrom = t.Fset.Position(data.Suggestion.From).Offset
+					r.SuggTo = t.Fset.Position(data.Suggestion.To).Offset
 					r.Sugg = string(data.Suggestion.Replacement)
 				}
 				if data.Func != nil {
@@ -676,8 +748,107 @@ func engineLevel(enc *json.Encoder, tmp string, rng *rand.Rand, ngroups int) {
 		}
 		return reports, ""
 	}
+	emit := func(v version, L int, reports []frep) {
+		src, sh := v.src, v.shift
+		// reports by the start offset of the whole-match site they belong to
+		bySite := map[int][]frep{}
+		var commentReports []frep
+		for _, r := range reports {
+			if r.Group == "gc" {
+				commentReports = append(commentReports, r)
+				continue
+			}
+			// a report belongs to the site whose span contains its node
+			idx := sort.Search(len(sites), func(i int) bool { return sites[i].to+v.shift > r.Pos })
+			if idx < len(sites) && sites[idx].from+v.shift <= r.Pos {
+				bySite[idx] = append(bySite[idx], r)
+			} else {
+				bySite[-1] = append(bySite[-1], r)
+			}
+		}
+		for _, r := range bySite[-1] {
+			enc.Encode(engineObs{K: "engine-stray", L: L, OMsg: []byte(r.Message), OPos: r.Pos, OEnd: r.End, OGroup: r.Group})
+		}
+		for si, s := range sites {
+			g := groups[s.group]
+			o := engineObs{K: "engine", Group: s.group, Alt: s.alt, L: L, Msg: g.msg, Sugg: g.suggest, At: g.at, SrcN: len(src), AltLines: g.altLines, Version: v.what, WGroup: g.wgroup}
+			if o.Sugg == "OWN" {
+				o.Sugg = strings.ReplaceAll(patText(s.group, 0), "$*", "$")
+				o.OwnText = s.alt == 0
+			}
+			// captures by construction
+			for k, n := range g.names {
+				if g.variadic && k == len(g.names)-1 {
+					rest := s.args[k:]
+					c := capSpec{Name: n}
+					if len(rest) > 0 {
+						c.Text = src[rest[0].from+sh : rest[len(rest)-1].to+sh]
+						c.From, c.To = rest[0].from+sh, rest[len(rest)-1].to+sh
+					} else {
+						c.Text = []byte{}
+					}
+					o.Caps = append(o.Caps, c)
+					continue
+				}
+				o.Caps = append(o.Caps, capSpec{Name: n, Text: src[s.args[k].from+sh : s.args[k].to+sh], Fix: s.args[k].e.fix, From: s.args[k].from + sh, To: s.args[k].to + sh})
+			}
+			o.Whole = capSpec{Text: src[s.from+sh : s.to+sh], From: s.from + sh, To: s.to + sh}
+			o.AtEOF = s.to+sh == len(src)
+			o.WPos, o.WEnd = s.from+sh, s.to+sh
+			if g.at != "" {
+				for k, n := range g.names {
+					if n == g.at {
+						o.WPos, o.WEnd = s.args[k].from+sh, s.args[k].to+sh
+					}
+				}
+			}
+			o.WMsg = []byte(interpSpec(g.msg, o.Caps, o.Whole.Text, true, L))
+			o.WLine = g.altLines[s.alt]
+			if o.Sugg != "" {
+				o.WSugg = []byte(interpSpec(o.Sugg, o.Caps, o.Whole.Text, false, L))
+				o.WHasSugg = len(o.WSugg) != 0 // an empty replacement text yields no suggestion
+			}
+			rs := bySite[si]
+			if len(rs) == 0 {
+				o.Missing = true
+				enc.Encode(o)
+				continue
+			}
+			r := rs[0]
+			o.Extra = len(rs) - 1
+			o.OMsg, o.OPos, o.OEnd, o.OLine, o.OGroup = []byte(r.Message), r.Pos, r.End, r.Line, r.Group
+			o.OFunc, o.WFunc, o.OFile, o.WFile = r.fn, s.fn, r.file, v.t.Path
+			o.OHasSugg, o.OSuggFrom, o.OSuggTo, o.OSugg = r.HasSugg, r.SuggFrom, r.SuggTo, []byte(r.Sugg)
+			if r.HasSugg && r.SuggFrom >= 0 && r.SuggFrom <= r.SuggTo && r.SuggTo <= len(src) {
+				edited := append(append(append([]byte{}, src[:r.SuggFrom]...), r.Sugg...), src[r.SuggTo:]...)
+				o.BytesSame = bytes.Equal(edited, src)
+				if p, err := printNoComments(edited); err != nil {
+					o.ApplyErr = err.Error()
+				} else {
+					o.AstSame = p == v.print
+				}
+			}
+			enc.Encode(o)
+		}
+		// comment alternatives: line of the alternative that matched
+		for _, r := range commentReports {
+			alt := 0
+			if strings.HasPrefix(r.Message, "c:beta") {
+				alt = 1
+			}
+			enc.Encode(engineObs{K: "engine-comment", L: L, Alt: alt, OMsg: []byte(r.Message), OLine: r.Line, WLine: cLines[alt], OGroup: r.Group, OPos: r.Pos, OEnd: r.End,
+				OFunc: r.fn, WFuncs: []string{""}, OFile: r.file, WFile: v.t.Path})
+		}
+		if len(commentReports) != 2 {
+			enc.Encode(engineObs{K: "engine-comment", L: L, Missing: true, Extra: len(commentReports)})
+		}
+	}
 	for _, L := range []int{0, 20, 1000} {
 		runFile(t2, L)
+		if err := os.WriteFile(t.Path, first.src, 0o644); err != nil {
+			fmt.Fprintln(os.Stderr, "target:", err)
+			os.Exit(3)
+		}
 		reports, pmsg := runFile(t, L)
 		if pmsg != "" {
 			enc.Encode(engineObs{K: "engine", L: L, Panic: pmsg})
@@ -704,97 +875,18 @@ func engineLevel(enc *json.Encoder, tmp string, rng *rand.Rand, ngroups int) {
 		if nTailSyntax != 1 || len(tailReports) != 3 {
 			enc.Encode(engineObs{K: "engine-func", L: L, Missing: true, Extra: len(tailReports)})
 		}
-		// reports by the start offset of the whole-match site they belong to
-		bySite := map[int][]frep{}
-		var commentReports []frep
-		for _, r := range reports {
-			if r.Group == "gc" {
-				commentReports = append(commentReports, r)
+		emit(first, L, reports)
+		for _, v := range versions[1:] {
+			if err := os.WriteFile(v.t.Path, v.src, 0o644); err != nil {
+				fmt.Fprintln(os.Stderr, "target:", err)
+				os.Exit(3)
+			}
+			vr, vmsg := runFile(v.t, L)
+			if vmsg != "" {
+				enc.Encode(engineObs{K: "engine", L: L, Panic: vmsg})
 				continue
 			}
-			// a report belongs to the site whose span contains its node
-			idx := sort.Search(len(sites), func(i int) bool { return sites[i].to > r.Pos })
-			if idx < len(sites) && sites[idx].from <= r.Pos {
-				bySite[idx] = append(bySite[idx], r)
-			} else {
-				bySite[-1] = append(bySite[-1], r)
-			}
-		}
-		for _, r := range bySite[-1] {
-			enc.Encode(engineObs{K: "engine-stray", L: L, OMsg: []byte(r.Message), OPos: r.Pos, OEnd: r.End, OGroup: r.Group})
-		}
-		for si, s := range sites {
-			g := groups[s.group]
-			o := engineObs{K: "engine", Group: s.group, Alt: s.alt, L: L, Msg: g.msg, Sugg: g.suggest, At: g.at, SrcN: len(src), AltLines: g.altLines}
-			if o.Sugg == "OWN" {
-				o.Sugg = strings.ReplaceAll(patText(s.group, 0), "$*", "$")
-				o.OwnText = s.alt == 0
-			}
-			// captures by construction
-			for k, n := range g.names {
-				if g.variadic && k == len(g.names)-1 {
-					rest := s.args[k:]
-					c := capSpec{Name: n}
-					if len(rest) > 0 {
-						c.Text = src[rest[0].from:rest[len(rest)-1].to]
-						c.From, c.To = rest[0].from, rest[len(rest)-1].to
-					} else {
-						c.Text = []byte{}
-					}
-					o.Caps = append(o.Caps, c)
-					continue
-				}
-				o.Caps = append(o.Caps, capSpec{Name: n, Text: src[s.args[k].from:s.args[k].to], Fix: s.args[k].e.fix, From: s.args[k].from, To: s.args[k].to})
-			}
-			o.Whole = capSpec{Text: src[s.from:s.to], From: s.from, To: s.to}
-			o.AtEOF = s.to == len(src)
-			o.WPos, o.WEnd = s.from, s.to
-			if g.at != "" {
-				for k, n := range g.names {
-					if n == g.at {
-						o.WPos, o.WEnd = s.args[k].from, s.args[k].to
-					}
-				}
-			}
-			o.WMsg = []byte(interpSpec(g.msg, o.Caps, o.Whole.Text, true, L))
-			o.WLine = g.altLines[s.alt]
-			if o.Sugg != "" {
-				o.WSugg = []byte(interpSpec(o.Sugg, o.Caps, o.Whole.Text, false, L))
-				o.WHasSugg = len(o.WSugg) != 0 // an empty replacement text yields no suggestion
-			}
-			rs := bySite[si]
-			if len(rs) == 0 {
-				o.Missing = true
-				enc.Encode(o)
-				continue
-			}
-			r := rs[0]
-			o.Extra = len(rs) - 1
-			o.OMsg, o.OPos, o.OEnd, o.OLine, o.OGroup = []byte(r.Message), r.Pos, r.End, r.Line, r.Group
-			o.OFunc, o.WFunc, o.OFile, o.WFile = r.fn, s.fn, r.file, t.Path
-			o.OHasSugg, o.OSuggFrom, o.OSuggTo, o.OSugg = r.HasSugg, r.SuggFrom, r.SuggTo, []byte(r.Sugg)
-			if r.HasSugg && r.SuggFrom >= 0 && r.SuggFrom <= r.SuggTo && r.SuggTo <= len(src) {
-				edited := append(append(append([]byte{}, src[:r.SuggFrom]...), r.Sugg...), src[r.SuggTo:]...)
-				o.BytesSame = bytes.Equal(edited, src)
-				if p, err := printNoComments(edited); err != nil {
-					o.ApplyErr = err.Error()
-				} else {
-					o.AstSame = p == origPrint
-				}
-			}
-			enc.Encode(o)
-		}
-		// comment alternatives: line of the alternative that matched
-		for _, r := range commentReports {
-			alt := 0
-			if strings.HasPrefix(r.Message, "c:beta") {
-				alt = 1
-			}
-			enc.Encode(engineObs{K: "engine-comment", L: L, Alt: alt, OMsg: []byte(r.Message), OLine: r.Line, WLine: cLines[alt], OGroup: r.Group, OPos: r.Pos, OEnd: r.End,
-				OFunc: r.fn, WFuncs: []string{""}, OFile: r.file, WFile: t.Path})
-		}
-		if len(commentReports) != 2 {
-			enc.Encode(engineObs{K: "engine-comment", L: L, Missing: true, Extra: len(commentReports)})
+			emit(v, L, vr)
 		}
 	}
 }
